@@ -347,6 +347,18 @@ def check_C03(tier, seed):
                 c.eval("(list p q o1 more)")
                 c.meta = {'under': False}
                 cases.append(c)
+    binders = ["(let ((p 1) (q . 5)) p)", "(let* ((p 1) (q . 5)) p)", "(let ((p 1) 5) p)", "(let ((p 1) (q 1 2)) p)", "(let* ((p 1) ((q) 2)) p)", "(let ((p 1) (t 2)) p)", "(let ((p 1) (:k 2)) p)",
+               "(let ((p 1) . 5) p)", "(let* ((p 1) (q (nofn))) p)", "(let ((p 1) (q 2) (o1 . 3)) p)", "(let* ((p 1) (q p) more (o1 . 3)) p)", "(let ((p 1)) (let ((q 2) (o1 . 3)) q))",
+               "(dolist (p '(1 2) . 3) p)", "(dolist (p (nofn)) p)", "(dolist (p '(1 . 2)) (car p))", "(dotimes (p 'x) p)", "(dotimes (p 2 . 3) p)", "(dotimes (p 2) (let ((q 1) (o1 . 2)) q))",
+               "(if-let ((p 1) (q . 2)) p)", "(when-let ((p 1) (q (nofn))) p)", "(if-let* ((p 1) (q 1 2)) p)", "(while-let ((p 1) (q . 2)) p)",
+               "(funcall (lambda (p) (let ((q 1) (o1 . 2)) q)) 1)", "(mapcar (lambda (p) (let* ((q p) (more . 2)) q)) '(1 2))"]
+    for b_ in binders:
+        c = Case('ar%d' % na); na += 1
+        c.eval("(setq p 10) (setq q 20) (setq o1 30) (setq more 40)")
+        c.eval(b_); c.vars(avars)
+        c.eval("(list p q o1 more)")
+        c.meta = {'under': False}
+        cases.append(c)
     res.cov['arity_cases'] = na
     impl, model, dis = differential(res, cases)
     # model-free oracle on the implementation
@@ -520,7 +532,7 @@ def check_C08(tier, seed):
             dcases = [c for c in cases if not c.cid.startswith('sw%d_' % maxlen)]   # debug sweep one length shorter
         else:
             dcases = cases
-        impl = sweep_table(core.run_side(binary, dcases, announce=True, timeout=1500))
+        impl = sweep_table(core.run_side(binary, dcases, announce=True, timeout=1500, stall=30))
         model = sweep_table(core.run_side(core.TLMODEL, dcases, timeout=1500))
         total += len(impl)
         bad = 0
@@ -595,7 +607,7 @@ def check_C08(tier, seed):
         c.parse('(' * d + 'a' + ')' * d); c.parse("'" * d + 'a'); c.parse('(' * d); c.parse('`' * d + ',' * d + 'a')
     pcases.append(c)
     for binary, label in ((core.TLIMPL_DEBUG, 'debug'), (core.TLIMPL_RELEASE, 'release')):
-        impl = core.run_side(binary, pcases, announce=True)
+        impl = core.run_side(binary, pcases, announce=True, stall=30)
         model = core.run_side(core.TLMODEL, pcases)
         def obs(kind, payload, ticks):
             # error kinds are not compared: a read-time definition may fail before a later parse error is seen
@@ -1362,6 +1374,7 @@ def check_C07(tier, seed):
         if x < 0.7: return SPL(tk(rng.choice(spl_exprs)))
         if x < 0.78: return Q(gen_item(d - 1) if d > 0 else 'q')
         if x < 0.83: return Q(UQ(tk(rng.choice(unq_exprs))))
+        if x < 0.87: return FQ(UQ(tk(rng.choice(unq_exprs)))) if rng.random() < 0.6 else FQ([gen_item(0), SPL(tk(rng.choice(spl_exprs)))])
         if d <= 0: return 'b'
         return gen_tmpl(d - 1)
     def gen_tmpl(d):
@@ -1376,7 +1389,7 @@ def check_C07(tier, seed):
         """The equivalent list / cons / append construction."""
         if isinstance(t, Wrap):
             if t.pre == ',': return t.x
-            if t.pre == "'": return ['list', Q('quote'), to_cons(t.x)] if False else ['bqquote', to_cons(t.x)]
+            if t.pre in ("'", "#'"): return ['bqquote', to_cons(t.x)]
             return Q(t)
         if isinstance(t, (list, Dot)) and (isinstance(t, Dot) or len(t) > 0):
             its = t.items if isinstance(t, Dot) else t
@@ -1402,7 +1415,7 @@ def check_C07(tier, seed):
                 % (prelude, text_t, ('(equal r1 %s)' % re.sub(r'\(tick \d+ ', '(progn ', cons)) if not has_quote else 't'))
         items.append((prog, {'tmpl': text_t, 'nticks': tid[0]}))
     # exhaustive small templates: up to 3 items over a fixed item set, optional dotted tail
-    small = [1, 'a', UQ('x'), UQ('l3'), SPL('l0'), SPL('l1'), SPL('l3'), ['b', UQ('x')], [SPL('l3')], Q(UQ('x'))]
+    small = [1, 'a', UQ('x'), UQ('l3'), SPL('l0'), SPL('l1'), SPL('l3'), ['b', UQ('x')], [SPL('l3')], Q(UQ('x')), FQ(UQ('x'))]
     tails = [None, UQ('x'), UQ('l3'), 'tl']
     nex = 0
     for n in range(0, tier_n(tier, 3, 4)):
@@ -1745,7 +1758,12 @@ class TailGen:
         c = r.choice(['if', 'if1', 'cond', 'progn', 'let', 'let*', 'when', 'unless', 'self', 'nontail', 'and', 'err'])
         if c == 'err': return ['if', ['<', 'n', r.choice([2, 3])], ['nofn'], self.tail(d - 1)]
         if c == 'if': return ['if', self.cond_e(), self.tail(d - 1), self.tail(d - 1)]
-        if c == 'if1': return ['if', self.cond_e(), self.tail(d - 1), ['setq', 'g', ['+', 'g', 1]], self.tail(d - 1)]
+        if c == 'if1':
+            if r.random() < 0.4:
+                # the self-call is a non-final else form: an ordinary call whose value is dropped, not a tail call
+                self.has_nontail = True
+                return ['if', self.cond_e(), self.tail(d - 1), self.selfcall(), ['setq', 'g', ['+', 'g', 1]], self.tail(d - 1)]
+            return ['if', self.cond_e(), self.tail(d - 1), ['setq', 'g', ['+', 'g', 1]], self.tail(d - 1)]
         if c == 'cond':
             cl = [[self.cond_e(), self.tail(d - 1)] for _ in range(r.choice([1, 2, 3]))]
             if r.random() < 0.3: cl.insert(r.randrange(len(cl) + 1), [self.cond_e()])
@@ -1780,6 +1798,9 @@ CANON_REC = [
     ['defun', 'f', ['n', '&optional', 'acc', 'o2'], ['if', ['<', 'n', 1], ['list', 'acc', 'o2'], ['if', ['<', ['mod', 'n', 2], 1], ['f', ['-', 'n', 1], 'n'], ['f', ['-', 'n', 1], 'acc', 'n']]]],
     ['defun', 'f', ['n', 'acc', '&rest', 'more'], ['if', ['<', 'n', 1], ['list', 'acc', 'more'], ['f', ['-', 'n', 1], ['car', 'more'], 'acc', 'n']]],
     ['defun', 'f', ['n', 'acc'], ['if', ['<', 'n', 1], 'acc', ['f', ['-', 'n', 1], ['let', [['n', 'acc']], ['+', 'n', 1]]]]],
+    # non-final forms of an if's else part and of an unless body are not tail positions (a tree walk)
+    ['defun', 'f', ['n', 'acc'], ['if', ['<', 'n', 1], ['progn', ['setq', 'g', ['+', 'g', 1]], 'acc'], ['f', ['-', 'n', 2], 'acc'], ['f', ['-', 'n', 1], ['+', 'acc', 1]]]],
+    ['defun', 'f', ['n', 'acc'], ['unless', ['<', 'n', 1], ['setq', 'g', ['+', 'g', 'n']], ['let', [['m', ['-', 'n', 2]]], ['f', 'm', 'acc']], ['f', ['-', 'n', 1], ['+', 'acc', 'g']]]],
     # tail positions under when / unless / let* / nested cond; a non-tail call under and
     ['defun', 'f', ['n', 'acc'], ['cond', [['<', 'n', 1], 'acc'], [['<', ['mod', 'n', 2], 1], ['when', True, ['unless', None, ['let*', [['a1', ['+', 'acc', 1]], ['a2', ['+', 'a1', 'n']]], ['f', ['-', 'n', 1], 'a2']]]]], [True, ['and', True, ['f', ['-', 'n', 1], 'acc']]]]],
 ]
@@ -2450,6 +2471,30 @@ def check_C16(tier, seed):
                "  (twice (tick 1 0))\n(idm (idm (tick 2 1)))   (pick nil (tick 3 2)) (idm (list (tick 4 3) (idm (tick 5 4))))",
                "(let ((é (idm (tick 1 \"é漢\"))))\n\t(-> (tick 2 é)\n\t    (list (tick 3 1))))"]
     for mb in mbodies: progs.append((mdefs, mb))
+    # forms that reach the evaluator through a copy of the list that holds them: bodies spliced by ,@ in a user macro, bodies of
+    # let / progn / if in tail position of a defun (rebuilt when tail calls are marked), bodies of when-let / if-let, threading steps
+    progs.append(('', """(defmacro my-progn (&rest body)
+  `(progn ,@body))
+(defmacro my-when (c &rest body) `(if ,c (progn ,@body)))
+(defmacro with-x (v &rest body)
+  `(let ((x ,v))
+      ,@body))
+(defun tl (v)
+  (let ((y v)) (tick 1 y)
+    (let* ((z y)) (progn (tick 2 z)
+       (if z (tick 3 z) (tick 4 z))))))
+(my-progn (tick 5 1)
+   (tick 6 2))
+(my-when (tick 7 3) (tick 8 4) (list (tick 9 5)))
+(with-x (tick 10 1) (tick 11 x)
+    (my-progn (list 1) (list (tick 12 x))))
+(tl 1)
+(when-let ((a (tick 13 1))) (tick 14 a)
+  (list (tick 15 a)))
+(-> 1 (list (list (tick 16 2))))
+(append (list (tick 17 1)) nil)
+(if-let ((b (tick 18 nil))) b (tick 19 1) (list 2 (tick 20 2)))
+"""))
     base = []
     for i, (defs, body) in enumerate(progs):
         c = Case('b%d' % i)
@@ -2514,6 +2559,10 @@ def check_C16(tier, seed):
         body = meta['body']
         forms, pos = scan_forms(body)
         first = True
+        if re.search(r'\(\s*tick\s+%d\b' % meta['tick'], re.sub(r';[^\n]*\n', ' ', body)) is not None:
+            if not entries or not re.match(r'\(\s*tick\s+%d\b' % meta['tick'], entries[0].group(6)):
+                bad('the failing host call (tick %d ...) is written in the evaluated text but is not the innermost located entry' % meta['tick'], {'entries': [e.group(0) for e in entries[:3]]})
+                continue
         for m in entries:
             fname, sl, sc, el, ec, shown = m.group(1), int(m.group(2)), int(m.group(3)), int(m.group(4)), int(m.group(5)), m.group(6)
             nentries += 1
@@ -2538,6 +2587,8 @@ def check_C16(tier, seed):
             end, src = forms[(sl, sc)]
             if is_listish and end != (el, ec):
                 bad('extent %d.%d-%d.%d does not coincide with the form written there (%d.%d-%d.%d)' % (sl, sc, el, ec, sl, sc, end[0], end[1]), {'entry': m.group(0)}); continue
+            if shown.startswith('(') and not src.lstrip("'`,@#").startswith('('):
+                bad('a list form is reported at the extent of %r, which is not a list' % src[:40], {'entry': m.group(0)}); continue
             if first and shown.startswith('(tick '):
                 first = False
                 in_this_text = re.search(r'\(\s*tick\s+%d\b' % meta['tick'], re.sub(r';[^\n]*\n', ' ', body)) is not None
@@ -2661,6 +2712,14 @@ def check_C19(tier, seed):
                          ' (list ' + ' '.join('(gethash %s ht)' % k for k in ['1', '1.0', "'a", ':k', '2', '0.0', '-0.0']) + ')')
         if rng.random() < 0.3:
             texts.append('(list (prin1-to-string (gensym)) (prin1-to-string (gensym "x")) (prin1-to-string (make-symbol "m")))')
+        if rng.random() < 0.15:
+            # several hundred keys that are distinct string objects with the same contents, probed with further fresh strings:
+            # keys are compared with eql, so what is found cannot depend on hash seeds or addresses
+            nk = rng.choice([200, 400, 600]); s = rng.choice(['key', '', 'é漢'])
+            texts.append('(setq hs (make-hash-table)) (setq hn 0) (while (< hn %d) (puthash (concat "%s") hn hs) (setq hn (+ hn 1))) hn' % (nk, s))
+            texts.append('(let ((i 0) (found nil)) (while (< i %d) (setq found (cons (gethash (concat "%s") hs) found)) (setq i (+ i 1))) found)' % (nk, s))
+            texts.append('(let ((k (concat "%s"))) (puthash k (quote mine) hs) (list (gethash k hs) (gethash "%s" hs) (gethash (format "%%s" "%s") hs)))' % (s, s, s))
+            texts.append('(let ((i 0) (hits 0)) (while (< i %d) (if (gethash (concat "%s") hs) (setq hits (+ hits 1))) (setq i (+ i 1))) hits)' % (nk, s))
         hists.append((texts, g.all_vars()))
     noise = ["(defun length (x) 42)", "(setq max 5)", "(defun f0 (&rest r) 'other-context)", "(setq a 'leak) (setq b 'leak) (setq x 'leak)", "(defmacro when (&rest r) ''hijacked)",
              "(setq gensym-counter 500)", "(defun car (x) 'no)", "(setq t1 (intern \"t\"))", "(defun r0 (n acc) 'other)", "(setq ht (make-hash-table)) (puthash 1 'other ht)", "(defun + (&rest r) 0)"]
